@@ -17,7 +17,7 @@ RULE = ("cases = site-model kind x (shape 1e-2..1e2, p_inv in [0,0.99], K 1..16,
 ASSUMPTIONS = ["the identities of the statement are the specification; individual Weibull rates are compared with the median-of-equiprobable-bins discretisation written from the formula"]
 BUDGET = {"quick": 60, "thorough": 400}
 ROUNDS = {"thorough": 16}
-FLOORS = {"overlay.C05.judged": {"quick": 100, "thorough": 1500}, "read_orders": 3, "identity_checks": 200, "after_update_checks": 100, "batched_slices": 50, "kinds": 4, "nested_batches": 20}
+FLOORS = {"overlay.C05.judged": {"quick": 100, "thorough": 1500}, "read_orders": 3, "identity_checks": 200, "after_update_checks": 100, "batched_slices": 50, "kinds": 4, "nested_batches": 20, "api_built_anonymous_parameters": 100, "updates_in_place_same_object": 200, "updates_through_another_view": 200}
 
 
 def _cases(tier, seed):
@@ -91,6 +91,19 @@ def _run_case(case):
     V = []
     C = {"identity_checks": 0, "after_update_checks": 0, "batched_slices": 0, "batched_raised": 0, "kinds": [kind]}
     model, dic = tt.load(gm.site_json(s))
+    style_seed = len(repr(case["site"])) + len(case["history"])
+    if style_seed % 4 == 3 and kind != "constant":
+        # the same model built through the Python API on anonymous parameters (id None), as scripts do
+        from torchtree import Parameter
+        from torchtree.evolution.site_model import InvariantSiteModel, WeibullSiteModel
+
+        ap = {k: Parameter(None, torch.tensor([s[k]], dtype=torch.float64)) for k in ("shape", "pinv", "mu") if k in s}
+        if kind == "invariant":
+            model = InvariantSiteModel(None, ap["pinv"], ap.get("mu"))
+        else:
+            model = WeibullSiteModel(None, ap["shape"], s["K"], ap.get("pinv"), ap.get("mu"))
+        dic = {"site." + k: v for k, v in ap.items()}
+        C["api_built_anonymous_parameters"] = 1
     orders = list(case.get("read_orders", [])) or [0]
     reads = [0]
 
@@ -117,7 +130,22 @@ def _run_case(case):
     for upd in case["history"]:
         order = list(upd)
         for k in order:
-            dic["site." + k].tensor = torch.tensor([upd[k]], dtype=torch.float64)
+            style = (style_seed + len(order) + reads[0]) % 3
+            par = dic["site." + k]
+            if style == 1:
+                # edited in place and announced by assigning the very same tensor object back
+                t = par.tensor
+                t[..., 0] = upd[k]
+                par.tensor = t
+                C["updates_in_place_same_object"] = C.get("updates_in_place_same_object", 0) + 1
+            elif style == 2:
+                # through a view of the parameter that is not the object the model holds
+                from torchtree.core.parameter import ViewParameter
+
+                ViewParameter(None, par, slice(0, 1)).tensor = torch.tensor([upd[k]], dtype=torch.float64)
+                C["updates_through_another_view"] = C.get("updates_through_another_view", 0) + 1
+            else:
+                par.tensor = torch.tensor([upd[k]], dtype=torch.float64)
             s[k] = upd[k]
             if len(order) > 1 and k == order[0]:
                 # read between two updates so that the cache is clean when the next update arrives
